@@ -180,6 +180,9 @@ func (g *Gen) execInstr(fr *Frame, st *State, in ssa.Instruction, r string) bool
 						st.src[obj] = av
 						st.srcAddr[obj] = true
 					}
+				} else if fv, ok := fr.freeOf[obj]; ok {
+					st.src[obj] = fr.val(fv)
+					st.srcAddr[obj] = true
 				} else {
 					st.src[obj] = fr.val(x.X)
 					st.srcAddr[obj] = x.IsAddr
